@@ -10,6 +10,9 @@
 #ifndef K0
 #define K0 3
 #endif
+#ifndef WITH_ELEM
+#define WITH_ELEM 0  // 1: additionally share a const ContiguousElement (needs at least one element in the vector)
+#endif
 
 using LT = L<LIST>;
 using Alloc = SAlloc<std::byte, 0>;
@@ -123,14 +126,44 @@ __attribute__((noinline)) static void reader(const Vec& v, const Vec& w, const M
     verif_assert(c == v && d == v, 221);
 }
 
+// const operations on a shared const element: reads, comparisons, copy construction (also allocator-extended), copy assignment
+// FROM it into private elements of smaller and larger size, construction of references from it
+__attribute__((noinline)) static void element_reader(const Elem& shared, const Vec& v, const M& m)
+{
+    check_elem<LT>(typename Vec::const_reference(shared), m.e[0], 600);
+    verif_assert(shared == v[0] && !(shared != v[0]) && !(shared < v[0]) && shared <= v[0] && v[0] >= shared, 610);
+    verif_assert(shared == shared && !(shared != shared), 611);
+    Elem mine(shared);  // copy construction from the shared element
+    check_elem<LT>(typename Vec::const_reference(mine), m.e[0], 620);
+    Elem other(shared, typename Elem::allocator_type(5));
+    check_elem<LT>(typename Vec::const_reference(other), m.e[0], 630);
+    const usize last = m.n - 1;
+    Elem priv(v[last]);  // a private element, possibly of a different varying size
+    priv = shared;       // copy assignment FROM the shared element
+    check_elem<LT>(typename Vec::const_reference(priv), m.e[0], 640);
+    check_elem<LT>(typename Vec::const_reference(shared), m.e[0], 650);
+    Elem priv2(v[last], typename Elem::allocator_type(6));
+    priv2 = shared;
+    check_elem<LT>(typename Vec::const_reference(priv2), m.e[0], 660);
+}
+
 extern "C" void h_entry()
 {
     {
         M m{}, mw{};
         Vec v = build(m, K0, 1);
         Vec w = build(mw, 1, 2);
+#if WITH_ELEM
+        verif_assume(m.n >= 1);
+        const auto r0 = v[0];
+        const Elem shared(r0);
+#endif
         verif_freeze();
+#if WITH_ELEM
+        element_reader(shared, v, m);
+#else
         reader(v, w, m, mw);
+#endif
         verif_thaw();
         Vec& mv = v;
         inv<LT>(mv, m, 100);
